@@ -2,6 +2,7 @@
   C08 — Count rate equals area × sum of binned photons and behaves linearly.
 -/
 import Synphot.Lemmas.ObsPhot
+import Synphot.Lemmas.C08x
 import Synphot.Props.C07
 import Synphot.Props.C01
 import Synphot.Props.C06
@@ -161,5 +162,515 @@ theorem range_errors (a1 a2 b1 b2 : K) :
 /-- a non-positive total is reported as an error, not returned -/
 theorem nonpositive_total_is_error (v : K) (h : v ≤ 0) : validateTotalflux v = .error .synphotError := by
   simp [validateTotalflux, h]
+
+/-! ## deepened statements (helpers in `Lemmas/C08x.lean`) -/
+
+/-! ### (a) closed forms, binned and unbinned -/
+
+/-- unbinned, no sub-range: `countrate` is `fullCount` of the native samples at the native wavelengths
+(the observation's waveset, or the caller's) -/
+theorem countrate_unbinned_full (E : Env K) (thr atol rtol : K) (o : Obs K) (area : Option K)
+    (wl : Option (List K)) (x yp : List K) (hx : wavelengthsOr thr o.model wl = .ok x)
+    (hyp : sampleTree E o.model x = .ok yp) :
+    countrate E thr atol rtol o area false wl none false = fullCount E x yp area := by
+  unfold countrate fullCount
+  simp only [Bool.false_eq_true, if_false, hx, hyp, bind, Except.bind, pure, Except.pure]
+
+/-- **closed form, unbinned**: area × Σ native sample × width of its own bin (the native wavelengths taken as
+bin centres) -/
+theorem countrate_unbinned_closed_form (E : Env K) (thr atol rtol : K) (o : Obs K) (a : K)
+    (wl : Option (List K)) (x yp e bw : List K) (hx : wavelengthsOr thr o.model wl = .ok x)
+    (hyp : sampleTree E o.model x = .ok yp) (he : binEdges x = .ok e) (hw : binWidths e = .ok bw) :
+    countrate E thr atol rtol o (some a) false wl none false =
+      if a * (mulFactors yp bw).sum ≤ 0 then .error .synphotError else .ok (a * (mulFactors yp bw).sum) := by
+  rw [countrate_unbinned_full E thr atol rtol o (some a) wl x yp hx hyp]
+  exact fullCount_closed_form E x yp e bw a (wavelengthsOr_valid thr o.model wl x hx) he hw
+    (binWidths_length_of_edges x e bw he hw) (C09.sampleTree_length E o.model x yp hyp).symm
+
+/-- **closed form, binned**: on bins as the constructor builds them the count rate is
+area × Σ binflux × bin width, with the observation's own `binflux` and `bin_edges` -/
+theorem countrate_binned_closed_form (E : Env K) (thr atol rtol : K) (hat : 0 ≤ atol) (hrt : 0 ≤ rtol)
+    (o : Obs K) (hg : GoodBins o.bins) (a : K) :
+    countrate E thr atol rtol o (some a) true none none false =
+      if a * (mulFactors o.bins.binflux (absDiffs o.bins.edges)).sum ≤ 0 then .error .synphotError
+      else .ok (a * (mulFactors o.bins.binflux (absDiffs o.bins.edges)).sum) := by
+  obtain ⟨_, h2, _⟩ := binned_stages E thr atol rtol hat hrt o hg a
+  simp only [crSamples, if_true] at h2
+  rw [countrate_binned_full E thr atol rtol o (some a) o.bins.binflux h2]
+  exact fullCount_closed_form E _ _ _ _ a hg.valid hg.2.2.1 hg.widths
+    (binWidths_length_of_edges _ _ _ hg.2.2.1 hg.widths) hg.2.2.2.symm
+
+/-- … for every observation the constructor returns -/
+theorem observation_countrate_closed_form (E : Env K) (P : OverlapPar K) (src band : Spec K)
+    (binset : Option (List K)) (force : Force) (useC : Bool) (o : Obs K)
+    (h : mkObs E P src band binset force useC = .ok o) (thr atol rtol : K) (hat : 0 ≤ atol) (hrt : 0 ≤ rtol)
+    (a : K) :
+    binWidths o.bins.edges = .ok (absDiffs o.bins.edges) ∧
+    countrate E thr atol rtol o (some a) true none none false =
+      if a * (mulFactors o.bins.binflux (absDiffs o.bins.edges)).sum ≤ 0 then .error .synphotError
+      else .ok (a * (mulFactors o.bins.binflux (absDiffs o.bins.edges)).sum) := by
+  have hg := mkObs_goodBins E P src band binset force useC o h
+  exact ⟨hg.widths, countrate_binned_closed_form E thr atol rtol hat hrt o hg a⟩
+
+/-- with C07's conservation: when the edges are points of the merged grid, the binned count rate of a
+constructed observation is **area × the trapezoid integral of the unbinned observation between the outer
+bin edges** on the merged grid -/
+theorem observation_countrate_is_area_times_integral (E : Env K) (P : OverlapPar K) (src band : Spec K)
+    (binset : Option (List K)) (force : Force) (useC : Bool) (o : Obs K)
+    (h : mkObs E P src band binset force useC = .ok o) (hedge : ∀ e ∈ o.bins.edges, e ∈ o.bins.spwave)
+    (thr atol rtol : K) (hat : 0 ≤ atol) (hrt : 0 ≤ rtol) (a : K) :
+    ∃ xs ys, xs.head? = o.bins.edges.head? ∧ xs.getLast? = o.bins.edges.getLast? ∧
+      sampleTree E o.model o.bins.spwave = .ok o.bins.flux ∧
+      xs = gridSlice o.bins.spwave (searchLeft o.bins.spwave (o.bins.edges.headD 0))
+          (searchLeft o.bins.spwave (o.bins.edges.getLastD 0)) ∧
+      ys = gridSlice o.bins.flux (searchLeft o.bins.spwave (o.bins.edges.headD 0))
+          (searchLeft o.bins.spwave (o.bins.edges.getLastD 0)) ∧
+      countrate E thr atol rtol o (some a) true none none false =
+        if a * trapzXY xs ys ≤ 0 then .error .synphotError else .ok (a * trapzXY xs ys) := by
+  obtain ⟨hw, hc⟩ := observation_countrate_closed_form E P src band binset force useC o h thr atol rtol hat hrt a
+  obtain ⟨xs, ys, hx, hy, h1, _, h3, h4, h5⟩ :=
+    C07.observation_conserves_flux E P src band binset force useC o h hedge _ hw
+  exact ⟨xs, ys, h3, h4, h5, hx, hy, by rw [hc, h1]⟩
+
+/-! ### (b) proportional to the area, in either area unit -/
+
+/-- **every** count-rate call (binned or not, any wavelengths, any range, forced or not) is proportional to
+the collecting area -/
+theorem countrate_area_linear (E : Env K) (thr atol rtol : K) (o : Obs K) (binned : Bool)
+    (wl : Option (List K)) (waverange : Option (K × K)) (force : Bool) (a k : K) (hk : 0 < k) (v : K)
+    (h : countrate E thr atol rtol o (some a) binned wl waverange force = .ok v) :
+    countrate E thr atol rtol o (some (k * a)) binned wl waverange force = .ok (k * v) := by
+  obtain ⟨x, yp, y, influx, hx, hyp, hy, hs, hv, hpos⟩ := countrate_ok_inv E thr atol rtol o _ binned wl waverange force v h
+  have hlen := crSamples_length E atol rtol o binned x yp hyp
+  obtain ⟨e, bw, he, hw, _, rfl⟩ := convertFlux_count_inv E.P E.T x yp y a hlen hy
+  have hy' := convertFlux_count_of E.P E.T x yp e bw (k * a) hlen he hw
+  rw [countrate_of_stages E thr atol rtol o _ binned wl waverange force x yp _ hx hyp hy',
+    mulFactors_scale_area, rangeSel_map, hs]
+  simp only [Except.map, rateOf, sum_map_mul_left]
+  rw [← hv, if_neg (not_le.mpr (mul_pos hk hpos))]
+
+/-- the area given as a Quantity in m² is converted to cm² (× 10⁴): the same area in either unit gives the
+same rate, i.e. the m² number counts 10⁴ times the cm² number -/
+theorem countrate_area_units (E : Env K) (thr atol rtol : K) (o : Obs K) (binned : Bool)
+    (wl : Option (List K)) (waverange : Option (K × K)) (force : Bool) (a v : K)
+    (h : countrate E thr atol rtol o (some (Bandpar.AreaUnit.toCm2 .cm2 a)) binned wl waverange force = .ok v) :
+    countrate E thr atol rtol o (some (Bandpar.AreaUnit.toCm2 .m2 a)) binned wl waverange force = .ok (10000 * v) := by
+  have := countrate_area_linear E thr atol rtol o binned wl waverange force a 10000 (by norm_num) v h
+  simpa [Bandpar.AreaUnit.toCm2, mul_comm] using this
+
+/-- proportional to the area in whatever unit it is given -/
+theorem countrate_area_linear_any_unit (E : Env K) (thr atol rtol : K) (o : Obs K) (binned : Bool)
+    (wl : Option (List K)) (waverange : Option (K × K)) (force : Bool) (u : Bandpar.AreaUnit) (a k : K) (hk : 0 < k)
+    (v : K) (h : countrate E thr atol rtol o (some (u.toCm2 a)) binned wl waverange force = .ok v) :
+    countrate E thr atol rtol o (some (u.toCm2 (k * a))) binned wl waverange force = .ok (k * v) := by
+  have e : u.toCm2 (k * a) = k * u.toCm2 a := by cases u <;> simp [Bandpar.AreaUnit.toCm2, mul_assoc]
+  rw [e]
+  exact countrate_area_linear E thr atol rtol o binned wl waverange force _ k hk v h
+
+/-! ### (c) effective stimulus in counts and OBMAG -/
+
+/-- a returned count rate is positive -/
+theorem countrate_ok_pos (E : Env K) (thr atol rtol : K) (o : Obs K) (area : Option K) (binned : Bool)
+    (wl : Option (List K)) (waverange : Option (K × K)) (force : Bool) (v : K)
+    (h : countrate E thr atol rtol o area binned wl waverange force = .ok v) : 0 < v := by
+  obtain ⟨_, _, _, _, _, _, _, _, _, hpos⟩ := countrate_ok_inv E thr atol rtol o area binned wl waverange force v h
+  exact hpos
+
+/-- OBMAG is −2.5 log₁₀ of the unbinned count rate, on the observation's own waveset (`wl = none`) as well as
+on the caller's wavelengths (`wl = some w`): a value, never an error, whenever the count rate is returned -/
+theorem effstim_obmag_value (E : Env K) (thr atol rtol : K) (o : Obs K) (wl : Option (List K))
+    (area : Option K) (vega : Option (Tree K)) (v : K)
+    (h : countrate E thr atol rtol o area false wl none false = .ok v) :
+    effstim E thr atol rtol o .count wl area vega = .ok v ∧
+      effstim E thr atol rtol o .obmag wl area vega = .ok (-(5/2) * E.T.log10 v) := by
+  refine ⟨h, ?_⟩
+  rw [effstim_obmag_is_mag_of_countrate E thr atol rtol o wl area vega v h]
+  unfold toMag
+  rw [if_neg (not_le.mpr (countrate_ok_pos E thr atol rtol o area false wl none false v h))]
+
+/-- and whatever the count rate raises, both forms of the effective stimulus raise -/
+theorem effstim_count_errors (E : Env K) (thr atol rtol : K) (o : Obs K) (wl : Option (List K))
+    (area : Option K) (vega : Option (Tree K)) (e : Err)
+    (h : countrate E thr atol rtol o area false wl none false = .error e) :
+    effstim E thr atol rtol o .count wl area vega = .error e ∧
+      effstim E thr atol rtol o .obmag wl area vega = .error e := by
+  refine ⟨h, ?_⟩
+  simp [effstim, h, bind, Except.bind]
+
+
+/-! ### (d) restriction to a wavelength range -/
+
+/-- **the bins a range selects**: with the lower limit above the first edge, the selected counts are ONE
+contiguous run `y[lo:hi]` of whole bins, and bin `j` belongs to it **iff** it reaches the range —
+`edges[j] < w2` and `w1 ≤ edges[j+1]`.  So every bin overlapping `[w1, w2]` is in (also one that only
+touches `w1` with its upper edge), and no bin detached from the range is -/
+theorem range_selects_contiguous_run (edges y : List K) (hs : StrictAsc edges) (hy : y.length + 1 = edges.length)
+    (w1 w2 : K) (h1 : edges.getD 0 0 < w1) :
+    ∃ lo hi, binnedRange edges y w1 w2 = (y.drop lo).take (hi - lo) ∧
+      ∀ j, j < y.length → ((lo ≤ j ∧ j < hi) ↔ (edges.getD j 0 < w2 ∧ w1 ≤ edges.getD (j + 1) 0)) := by
+  have hpos : 1 ≤ searchLeft edges w1 := searchLeft_pos edges w1 0 (by omega) h1
+  refine ⟨searchLeft edges w1 - 1, searchLeft edges w2, binnedRange_eq edges y w1 w2 hpos, ?_⟩
+  intro j hj
+  exact selected_iff edges hs w1 w2 j (by omega) hpos
+
+/-- the full range — from the first to the last bin centre, the widest one `overlap_status` calls 'full' —
+selects every bin -/
+theorem full_range_selects_all (c e y : List K) (hc : StrictAsc c) (he : binEdges c = .ok e)
+    (hy : y.length = c.length) : binnedRange e y (c.getD 0 0) (c.getD (c.length - 1) 0) = y :=
+  binnedRange_full c e y hc he hy
+
+/-- monotone in the range: for non-negative counts a larger range never gives less -/
+theorem range_sum_monotone (edges y : List K) (hy : ∀ v ∈ y, 0 ≤ v) (w1 w2 w1' w2' : K)
+    (h1 : edges.getD 0 0 < w1') (hne : edges ≠ []) (hw1 : w1' ≤ w1) (hw2 : w2 ≤ w2') :
+    (binnedRange edges y w1 w2).sum ≤ (binnedRange edges y w1' w2').sum :=
+  binnedRange_mono edges y hy w1 w2 w1' w2'
+    (searchLeft_pos edges w1' 0 (List.length_pos_iff.mpr hne) h1) hw1 hw2
+
+/-- the binned count rate over a range inside the observation (`overlap_status` 'full'), on bins as the
+constructor builds them: the sum of the selected run of per-bin counts, validated -/
+theorem countrate_binned_range (E : Env K) (thr atol rtol : K) (hat : 0 ≤ atol) (hrt : 0 ≤ rtol) (o : Obs K)
+    (hg : GoodBins o.bins) (a wa wb : K) (force : Bool)
+    (h1 : o.bins.binset.getD 0 0 ≤ min wa wb) (h2 : max wa wb ≤ o.bins.binset.getD (o.bins.binset.length - 1) 0) :
+    countrate E thr atol rtol o (some a) true none (some (wa, wb)) force =
+      rateOf (.ok (binnedRange o.bins.edges (binCounts o.bins a) (min wa wb) (max wa wb))) := by
+  obtain ⟨s1, s2, s3⟩ := binned_stages E thr atol rtol hat hrt o hg a
+  rw [countrate_of_stages E thr atol rtol o _ true none _ force _ _ _ s1 s2 s3]
+  have hne := hg.ne
+  rcases hb : o.bins.binset with _ | ⟨c0, ct⟩
+  · exact absurd hb hne
+  · have hs : StrictAsc (c0 :: ct) := by rw [← hb]; exact hg.1
+    have hl : (c0 :: ct).getD ((c0 :: ct).length - 1) 0 = ct.getLastD c0 := by
+      rw [List.getLastD_eq_getLast?, List.getD_eq_getElem?_getD]
+      cases ct with
+      | nil => rfl
+      | cons c1 ct =>
+        rw [List.getLast?_eq_getElem?]
+        simp
+    rw [hb] at h1 h2
+    rw [hl] at h2
+    simp only [List.getD_cons_zero] at h1
+    rw [rangeSel_cases o _ _ true none wa wb force c0 (ct.getLastD c0) (listMin_strictAsc c0 ct hs)
+      (listMax_strictAsc c0 ct hs), if_pos ⟨h1, h2⟩]
+    simp only [cutRange, crEdges, if_true, pure, Except.pure, binnedRange]
+
+/-- **the full range reproduces the unrestricted value** (given in either order, forced or not) -/
+theorem countrate_full_range (E : Env K) (thr atol rtol : K) (hat : 0 ≤ atol) (hrt : 0 ≤ rtol) (o : Obs K)
+    (hg : GoodBins o.bins) (a wa wb : K) (force : Bool)
+    (h1 : min wa wb = o.bins.binset.getD 0 0) (h2 : max wa wb = o.bins.binset.getD (o.bins.binset.length - 1) 0) :
+    countrate E thr atol rtol o (some a) true none (some (wa, wb)) force =
+      countrate E thr atol rtol o (some a) true none none false := by
+  rw [countrate_binned_range E thr atol rtol hat hrt o hg a wa wb force (le_of_eq h1.symm) (le_of_eq h2), h1, h2,
+    binnedRange_full _ _ _ hg.1 hg.2.2.1 (binCounts_length o.bins hg a)]
+  obtain ⟨s1, s2, s3⟩ := binned_stages E thr atol rtol hat hrt o hg a
+  rw [countrate_of_stages E thr atol rtol o _ true none none false _ _ _ s1 s2 s3]
+  rfl
+
+/-- **monotone in the range**, at the level of the call: for non-negative binned flux and area, if the count
+rate over a range inside the observation is returned, the count rate over any larger such range is returned
+too and is at least as large -/
+theorem countrate_range_monotone (E : Env K) (thr atol rtol : K) (hat : 0 ≤ atol) (hrt : 0 ≤ rtol) (o : Obs K)
+    (hg : GoodBins o.bins) (a : K) (ha : 0 ≤ a) (hf : ∀ v ∈ o.bins.binflux, 0 ≤ v)
+    (wa wb wa' wb' : K) (force force' : Bool)
+    (h1 : o.bins.binset.getD 0 0 ≤ min wa' wb') (h2 : max wa' wb' ≤ o.bins.binset.getD (o.bins.binset.length - 1) 0)
+    (hlo : min wa' wb' ≤ min wa wb) (hhi : max wa wb ≤ max wa' wb') (v : K)
+    (h : countrate E thr atol rtol o (some a) true none (some (wa, wb)) force = .ok v) :
+    ∃ v', countrate E thr atol rtol o (some a) true none (some (wa', wb')) force' = .ok v' ∧ v ≤ v' := by
+  rw [countrate_binned_range E thr atol rtol hat hrt o hg a wa wb force (le_trans h1 hlo) (le_trans hhi h2)] at h
+  rw [countrate_binned_range E thr atol rtol hat hrt o hg a wa' wb' force' h1 h2]
+  simp only [rateOf] at h ⊢
+  split_ifs at h with h0
+  injection h with h
+  have hc0 : o.bins.edges.getD 0 0 < min wa' wb' := by
+    have h2' := (C18.edges_ok_iff _).mp ⟨_, hg.2.2.1⟩
+    exact lt_of_lt_of_le (C07.centre_inside_bin _ _ hg.1 hg.2.2.1 0 (by omega)).1 h1
+  have hne : o.bins.edges ≠ [] := by
+    have := C18.edges_length _ _ hg.2.2.1
+    intro h0; rw [h0] at this; simp at this
+  have hmono := range_sum_monotone o.bins.edges (binCounts o.bins a) (binCounts_nonneg o.bins a ha hf)
+    (min wa wb) (max wa wb) (min wa' wb') (max wa' wb') hc0 hne hlo hhi
+  refine ⟨_, if_neg (not_le.mpr (lt_of_lt_of_le (not_le.mp h0) hmono)), ?_⟩
+  rw [← h]; exact hmono
+
+/-- **never more than the unrestricted value**: for non-negative samples and area, any returned count rate
+over a range (binned or unbinned, any wavelengths, forced or not) is at most the count rate of the same call
+without the range, which is returned as well -/
+theorem countrate_range_le_total (E : Env K) (thr atol rtol : K) (o : Obs K) (binned : Bool)
+    (wl : Option (List K)) (r : K × K) (force : Bool) (a : K) (ha : 0 ≤ a)
+    (hnn : ∀ x yp, crWaves thr o binned wl = .ok x → crSamples E atol rtol o binned x = .ok yp → ∀ p ∈ yp, 0 ≤ p)
+    (v : K) (h : countrate E thr atol rtol o (some a) binned wl (some r) force = .ok v) :
+    ∃ t, countrate E thr atol rtol o (some a) binned wl none false = .ok t ∧ v ≤ t := by
+  obtain ⟨x, yp, y, influx, hx, hyp, hy, hs, hv, hpos⟩ := countrate_ok_inv E thr atol rtol o _ binned wl _ force v h
+  have hlen := crSamples_length E atol rtol o binned x yp hyp
+  obtain ⟨e, bw, he, hw, _, rfl⟩ := convertFlux_count_inv E.P E.T x yp y a hlen hy
+  have hbw : bw = absDiffs e := by
+    unfold binWidths at hw; split_ifs at hw; injection hw with hw; exact hw.symm
+  have hynn : ∀ t ∈ mulFactors yp (bw.map (· * a)), 0 ≤ t := by
+    have := binCounts_nonneg ⟨[], e, yp, [], [], [], []⟩ a ha (hnn x yp hx hyp)
+    simpa [binCounts, hbw] using this
+  have hle : influx.sum ≤ (mulFactors yp (bw.map (· * a))).sum := by
+    obtain ⟨wa, wb⟩ := r
+    obtain ⟨xm, xM, hmin, hmax⟩ := rangeSel_ok_minmax o x _ binned wl wa wb force influx hs
+    rw [rangeSel_cases o x _ binned wl wa wb force xm xM hmin hmax] at hs
+    split_ifs at hs
+    · exact cutRange_le_total o x _ hynn binned wl _ _ influx hs
+    · exact cutRange_le_total o x _ hynn binned wl _ _ influx hs
+  rw [countrate_of_stages E thr atol rtol o _ binned wl none false x yp _ hx hyp hy]
+  refine ⟨(mulFactors yp (bw.map (· * a))).sum, ?_, by rw [hv]; exact hle⟩
+  simp only [rangeSel, pure, Except.pure, rateOf]
+  rw [if_neg (not_le.mpr (lt_of_lt_of_le (by rw [← hv]; exact hpos) hle))]
+
+/-- a range given as `(hi, lo)` behaves like `(lo, hi)`, in every call -/
+theorem countrate_range_swap (E : Env K) (thr atol rtol : K) (o : Obs K) (area : Option K) (binned : Bool)
+    (wl : Option (List K)) (wa wb : K) (force : Bool) :
+    countrate E thr atol rtol o area binned wl (some (wb, wa)) force =
+      countrate E thr atol rtol o area binned wl (some (wa, wb)) force := by
+  unfold countrate
+  simp only [overlapArrays_swap wa wb, min_comm wb wa, max_comm wb wa]
+
+/-! ### (e) the outcomes of a call with a range, as one case analysis -/
+
+/-- once the samples are converted to counts (`y`), a call with a range `(wa, wb)` has exactly these
+outcomes, decided by where `[min, max]` of the range lies with respect to the smallest and largest sampled
+wavelength `xm`, `xM`:
+* inside (`xm ≤ w1`, `w2 ≤ xM`): the counts between the limits (`cutRange`), summed and validated;
+* disjoint (`w2 < xm` or `xM < w1`): `DisjointError`, forced or not;
+* sticking out: `PartialOverlap` — unless `force`, then the counts between the limits clipped to `[xm, xM]`;
+and wherever a sum is formed (`rateOf`), a non-positive total is a `SynphotError`, never a returned number -/
+theorem countrate_range_outcomes (E : Env K) (thr atol rtol : K) (o : Obs K) (area : Option K) (binned : Bool)
+    (wl : Option (List K)) (wa wb : K) (force : Bool) (x yp y : List K) (xm xM : K)
+    (hx : crWaves thr o binned wl = .ok x) (hyp : crSamples E atol rtol o binned x = .ok yp)
+    (hy : convertFlux E.P E.T x yp .photlam .count area none = .ok y)
+    (hmin : listMin x = some xm) (hmax : listMax x = some xM) :
+    countrate E thr atol rtol o area binned wl (some (wa, wb)) force =
+      if xm ≤ min wa wb ∧ max wa wb ≤ xM then rateOf (cutRange o x y binned wl (min wa wb) (max wa wb))
+      else if max wa wb < xm ∨ xM < min wa wb then .error .disjointError
+      else if force then rateOf (cutRange o x y binned wl (max (min wa wb) xm) (min (max wa wb) xM))
+      else .error .partialOverlap := by
+  rw [countrate_of_stages E thr atol rtol o area binned wl _ force x yp y hx hyp hy,
+    rangeSel_cases o x y binned wl wa wb force xm xM hmin hmax]
+  split_ifs <;> rfl
+
+/-- what `rateOf` does with the selected counts: an error of the selection is passed on, a non-positive total
+is a `SynphotError`, a positive total is returned -/
+theorem total_validation (sel : Except Err (List K)) :
+    (∀ e, sel = .error e → rateOf sel = .error e) ∧
+    (∀ l, sel = .ok l → l.sum ≤ 0 → rateOf sel = .error .synphotError) ∧
+    (∀ l, sel = .ok l → 0 < l.sum → rateOf sel = .ok l.sum) := by
+  refine ⟨?_, ?_, ?_⟩
+  · rintro e rfl; rfl
+  · rintro l rfl h; simp [rateOf, h]
+  · rintro l rfl h; simp [rateOf, not_le.mpr h]
+
+/-- in particular, on bins as the constructor builds them: a disjoint range raises `DisjointError`, a range
+sticking out raises `PartialOverlap` unless forced -/
+theorem countrate_binned_range_errors (E : Env K) (thr atol rtol : K) (hat : 0 ≤ atol) (hrt : 0 ≤ rtol) (o : Obs K)
+    (hg : GoodBins o.bins) (a wa wb : K) (force : Bool) (c0 cl : K) (hc0 : c0 = o.bins.binset.getD 0 0)
+    (hcl : cl = o.bins.binset.getD (o.bins.binset.length - 1) 0) :
+    (max wa wb < c0 ∨ cl < min wa wb →
+      countrate E thr atol rtol o (some a) true none (some (wa, wb)) force = .error .disjointError) ∧
+    (¬ (c0 ≤ min wa wb ∧ max wa wb ≤ cl) → ¬ (max wa wb < c0 ∨ cl < min wa wb) → force = false →
+      countrate E thr atol rtol o (some a) true none (some (wa, wb)) force = .error .partialOverlap) ∧
+    (¬ (c0 ≤ min wa wb ∧ max wa wb ≤ cl) → ¬ (max wa wb < c0 ∨ cl < min wa wb) → force = true →
+      countrate E thr atol rtol o (some a) true none (some (wa, wb)) force =
+        rateOf (.ok (binnedRange o.bins.edges (binCounts o.bins a) (max (min wa wb) c0) (min (max wa wb) cl)))) := by
+  subst hc0 hcl
+  obtain ⟨s1, s2, s3⟩ := binned_stages E thr atol rtol hat hrt o hg a
+  have hne := hg.ne
+  have hs := hg.1
+  have hmm : ∃ b0 bt, o.bins.binset = b0 :: bt := by
+    rcases hb : o.bins.binset with _ | ⟨b0, bt⟩
+    · exact absurd hb hne
+    · exact ⟨b0, bt, rfl⟩
+  obtain ⟨b0, bt, hb⟩ := hmm
+  rw [hb] at hs
+  have hl : (b0 :: bt).getD ((b0 :: bt).length - 1) 0 = bt.getLastD b0 := by
+    rw [List.getLastD_eq_getLast?, List.getD_eq_getElem?_getD]
+    cases bt with
+    | nil => rfl
+    | cons c1 ct =>
+      rw [List.getLast?_eq_getElem?]
+      simp
+  have hcases := countrate_range_outcomes E thr atol rtol o (some a) true none wa wb force _ _ _ b0 (bt.getLastD b0)
+    s1 s2 s3 (by rw [hb]; exact listMin_strictAsc b0 bt hs) (by rw [hb]; exact listMax_strictAsc b0 bt hs)
+  have e0 : o.bins.binset.getD 0 0 = b0 := by rw [hb]; rfl
+  have e1 : o.bins.binset.getD (o.bins.binset.length - 1) 0 = bt.getLastD b0 := by rw [hb]; exact hl
+  rw [e0, e1]
+  have hle : b0 ≤ bt.getLastD b0 := strictAsc_head_le_last bt b0 hs
+  refine ⟨?_, ?_, ?_⟩
+  · intro hd
+    have hnf : ¬ (b0 ≤ min wa wb ∧ max wa wb ≤ bt.getLastD b0) := by
+      rintro ⟨h1, h2⟩
+      have := min_le_max (a := wa) (b := wb)
+      rcases hd with hd | hd <;> linarith
+    rw [hcases, if_neg hnf, if_pos hd]
+  · intro hnf hnd hfo
+    rw [hcases, if_neg hnf, if_neg hnd, hfo]; rfl
+  · intro hnf hnd hfo
+    rw [hcases, if_neg hnf, if_neg hnd, hfo, if_pos rfl]
+    simp only [cutRange, crEdges, if_true, pure, Except.pure, binnedRange]
+
+
+/-! ### non-vacuity: the witness observation `Synphot.C08w.wObs` over ℚ (tolerances `1e-8`, `1e-5`) -/
+
+section examples
+open Synphot.C07w Synphot.C08w Synphot.C10x.Witness
+variable (T : Transc ℚ)
+
+private theorem tolA : (0 : ℚ) ≤ 1/10^8 := by norm_num
+private theorem tolR : (0 : ℚ) ≤ 1/10^5 := by norm_num
+
+/-- unbinned on the observation's own waveset: area 3 × (2·2 + 2·2) = 24 -/
+private theorem ex_unbinned : countrate (env T) 0 (1/10^8) (1/10^5) wObs (some 3) false none none false = .ok 24 := by
+  rw [countrate_unbinned_closed_form (env T) 0 _ _ wObs 3 none _ _ _ _ (wWaves 0) (wSamples _) wEdges24 wWidths24]
+  norm_num [mulFactors]
+
+/-- unbinned on the caller's wavelengths 2, 3, 4: area 3 × (2 + 2 + 2) = 18 -/
+private theorem ex_unbinned_explicit :
+    countrate (env T) 0 (1/10^8) (1/10^5) wObs (some 3) false (some [2, 3, 4]) none false = .ok 18 := by
+  rw [countrate_unbinned_closed_form (env T) 0 _ _ wObs 3 _ _ _ _ _ (wWaves234 0) (wSamples234 _) wEdges234 wWidths234]
+  norm_num [mulFactors]
+
+example : countrate (env T) 0 (1/10^8) (1/10^5) wObs (some 3) false none none false =
+    fullCount (env T) [2, 4] [2, 2] (some 3) :=
+  countrate_unbinned_full (env T) 0 _ _ wObs (some 3) none _ _ (wWaves 0) (wSamples _)
+example : countrate (env T) 0 (1/10^8) (1/10^5) wObs (some 3) false none none false = .ok 24 := ex_unbinned T
+example : countrate (env T) 0 (1/10^8) (1/10^5) wObs (some 3) false (some [2, 3, 4]) none false = .ok 18 :=
+  ex_unbinned_explicit T
+
+/-- binned: area 3 × (5·2 + 6·3 + 7·4) = 168 -/
+private theorem ex_binned : countrate (env T) 0 (1/10^8) (1/10^5) wObs (some 3) true none none false = .ok 168 := by
+  rw [countrate_binned_closed_form (env T) 0 _ _ tolA tolR wObs wGood 3, wSum]
+  norm_num
+example : countrate (env T) 0 (1/10^8) (1/10^5) wObs (some 3) true none none false = .ok 168 := ex_binned T
+
+example (useC : Bool) : ∃ o : Obs ℚ, mkObs (env T) par (src 2) band (some wBs) .none useC = .ok o ∧
+    countrate (env T) 0 (1/10^8) (1/10^5) o (some 3) true none none false =
+      if 3 * (mulFactors o.bins.binflux (absDiffs o.bins.edges)).sum ≤ 0 then .error .synphotError
+      else .ok (3 * (mulFactors o.bins.binflux (absDiffs o.bins.edges)).sum) := by
+  obtain ⟨o, ho, _⟩ := wMkObs (env T) useC
+  exact ⟨o, ho, (observation_countrate_closed_form _ _ _ _ _ _ _ o ho 0 _ _ tolA tolR 3).2⟩
+
+example (useC : Bool) : ∃ (o : Obs ℚ) (xs ys : List ℚ), mkObs (env T) par (src 2) band (some wBs) .none useC = .ok o ∧
+    xs.head? = some 1 ∧ xs.getLast? = some 10 ∧
+    countrate (env T) 0 (1/10^8) (1/10^5) o (some 3) true none none false =
+      if 3 * trapzXY xs ys ≤ 0 then .error .synphotError else .ok (3 * trapzXY xs ys) := by
+  obtain ⟨o, ho, _, he, hg⟩ := wMkObs (env T) useC
+  obtain ⟨xs, ys, h1, h2, _, _, _, h6⟩ :=
+    observation_countrate_is_area_times_integral _ _ _ _ _ _ _ o ho hg 0 _ _ tolA tolR 3
+  refine ⟨o, xs, ys, ho, ?_, ?_, h6⟩
+  · rw [h1, he]; rfl
+  · rw [h2, he]; rfl
+
+/-- twice the area, twice the rate; the same area as 3 m² instead of 3 cm²: 10⁴ times the rate -/
+example : countrate (env T) 0 (1/10^8) (1/10^5) wObs (some (2 * 3)) true none none false = .ok (2 * 168) :=
+  countrate_area_linear (env T) 0 _ _ wObs true none none false 3 2 (by norm_num) 168 (ex_binned T)
+example : countrate (env T) 0 (1/10^8) (1/10^5) wObs (some (Bandpar.AreaUnit.toCm2 .m2 3)) true none none false =
+    .ok (10000 * 168) :=
+  countrate_area_units (env T) 0 _ _ wObs true none none false 3 168 (ex_binned T)
+example : countrate (env T) 0 (1/10^8) (1/10^5) wObs (some (Bandpar.AreaUnit.toCm2 .m2 (2 * 3))) true none none false =
+    .ok (2 * (10000 * 168)) :=
+  countrate_area_linear_any_unit (env T) 0 _ _ wObs true none none false .m2 3 2 (by norm_num) _
+    (countrate_area_units (env T) 0 _ _ wObs true none none false 3 168 (ex_binned T))
+example : (0 : ℚ) < 168 := countrate_ok_pos (env T) 0 _ _ wObs _ true none none false 168 (ex_binned T)
+
+/-- OBMAG on the observation's own waveset and on explicit wavelengths -/
+example : effstim (env T) 0 (1/10^8) (1/10^5) wObs .obmag none (some 3) none = .ok (-(5/2) * T.log10 24) :=
+  (effstim_obmag_value (env T) 0 _ _ wObs none (some 3) none 24 (ex_unbinned T)).2
+example : effstim (env T) 0 (1/10^8) (1/10^5) wObs .obmag (some [2, 3, 4]) (some 3) none = .ok (-(5/2) * T.log10 18) :=
+  (effstim_obmag_value (env T) 0 _ _ wObs (some [2, 3, 4]) (some 3) none 18 (ex_unbinned_explicit T)).2
+example : effstim (env T) 0 (1/10^8) (1/10^5) wObs .count (some [2, 3, 4]) (some 3) none = .ok 18 :=
+  (effstim_obmag_value (env T) 0 _ _ wObs (some [2, 3, 4]) (some 3) none 18 (ex_unbinned_explicit T)).1
+
+/-- without an area the count rate is refused, and so are both forms of the effective stimulus -/
+example : ∃ e, effstim (env T) 0 (1/10^8) (1/10^5) wObs .obmag none none none = .error e := by
+  obtain ⟨e, he⟩ := fullCount_needs_area (env T) (2 : ℚ) 2 [4] [2]
+  have hc : countrate (env T) 0 (1/10^8) (1/10^5) wObs none false none none false = .error e := by
+    rw [countrate_unbinned_full (env T) 0 _ _ wObs none none _ _ (wWaves 0) (wSamples _)]; exact he
+  exact ⟨e, (effstim_count_errors (env T) 0 _ _ wObs none none none e hc).2⟩
+
+/-! ranges on the edges 1, 3, 6, 10 with per-bin counts 10, 18, 28 -/
+
+private theorem sAsc : StrictAsc ([1, 3, 6, 10] : List ℚ) := by norm_num [StrictAsc]
+
+example := range_selects_contiguous_run ([1, 3, 6, 10] : List ℚ) [10, 18, 28] sAsc rfl 2 4 (by norm_num)
+example : binnedRange ([1, 3, 6, 10] : List ℚ) [10, 18, 28] 2 4 = [10, 18] := by rw [wRange24]; rfl
+example : binnedRange ([1, 3, 6, 10] : List ℚ) [10, 18, 28] 2 8 = [10, 18, 28] :=
+  full_range_selects_all ([2, 4, 8] : List ℚ) _ _ wStrictAsc wBinEdges rfl
+example : (binnedRange ([1, 3, 6, 10] : List ℚ) [10, 18, 28] 2 4).sum ≤
+    (binnedRange ([1, 3, 6, 10] : List ℚ) [10, 18, 28] 2 8).sum :=
+  range_sum_monotone _ _ (by intro v hv; simp at hv; rcases hv with rfl | rfl | rfl <;> norm_num) 2 4 2 8
+    (by norm_num) (by simp) (le_refl _) (by norm_num)
+
+/-- the range (2, 4): bins 0 and 1, 3 × (10 + 18) = 84 -/
+private theorem ex_range24 (force : Bool) :
+    countrate (env T) 0 (1/10^8) (1/10^5) wObs (some 3) true none (some (2, 4)) force = .ok 84 := by
+  rw [countrate_binned_range (env T) 0 _ _ tolA tolR wObs wGood 3 2 4 force (by norm_num [wObs, sBins])
+    (by norm_num [wObs, sBins])]
+  have h1 : min (2 : ℚ) 4 = 2 := by norm_num
+  have h2 : max (2 : ℚ) 4 = 4 := by norm_num
+  rw [h1, h2]
+  have : (wObs).bins.edges = [1, 3, 6, 10] := rfl
+  rw [this, wRange24, wCounts]
+  norm_num [rateOf]
+example (force : Bool) :
+    countrate (env T) 0 (1/10^8) (1/10^5) wObs (some 3) true none (some (2, 4)) force = .ok 84 := ex_range24 T force
+
+/-- the full range (2, 8), in either order, forced or not, reproduces 168 -/
+example (force : Bool) : countrate (env T) 0 (1/10^8) (1/10^5) wObs (some 3) true none (some (8, 2)) force = .ok 168 := by
+  rw [countrate_full_range (env T) 0 _ _ tolA tolR wObs wGood 3 8 2 force (by norm_num [wObs, sBins])
+    (by norm_num [wObs, sBins])]
+  exact ex_binned T
+
+example : ∃ v', countrate (env T) 0 (1/10^8) (1/10^5) wObs (some 3) true none (some (2, 8)) false = .ok v' ∧ (84 : ℚ) ≤ v' :=
+  countrate_range_monotone (env T) 0 _ _ tolA tolR wObs wGood 3 (by norm_num)
+    (by intro v hv; simp [wObs, sBins] at hv; rcases hv with rfl | rfl | rfl <;> norm_num)
+    2 4 2 8 false false (by norm_num [wObs, sBins]) (by norm_num [wObs, sBins]) (by norm_num) (by norm_num) 84
+    (ex_range24 T false)
+
+example : ∃ t, countrate (env T) 0 (1/10^8) (1/10^5) wObs (some 3) true none none false = .ok t ∧ (84 : ℚ) ≤ t :=
+  countrate_range_le_total (env T) 0 _ _ wObs true none (2, 4) false 3 (by norm_num)
+    (by
+      intro x yp hx hyp p hp
+      have hx' := crWaves_binned_none 0 wObs x hx
+      subst hx'
+      have := (binned_stages (env T) 0 _ _ tolA tolR wObs wGood 3).2.1
+      rw [this] at hyp; injection hyp with hyp; subst hyp
+      simp [wObs, sBins] at hp; rcases hp with rfl | rfl | rfl <;> norm_num)
+    84 (ex_range24 T false)
+
+example (force : Bool) : countrate (env T) 0 (1/10^8) (1/10^5) wObs (some 3) true none (some (4, 2)) force = .ok 84 := by
+  rw [countrate_range_swap]; exact ex_range24 T force
+
+example (wa wb : ℚ) (force : Bool) := countrate_range_outcomes (env T) 0 (1/10^8) (1/10^5) wObs (some 3) true none wa wb
+  force _ _ _ 2 8 (binned_stages (env T) 0 _ _ tolA tolR wObs wGood 3).1
+  (binned_stages (env T) 0 _ _ tolA tolR wObs wGood 3).2.1 (binned_stages (env T) 0 _ _ tolA tolR wObs wGood 3).2.2
+  (listMin_strictAsc 2 [4, 8] wStrictAsc) (listMax_strictAsc 2 [4, 8] wStrictAsc)
+
+example : rateOf (.ok ([0, 0] : List ℚ)) = .error .synphotError :=
+  (total_validation (.ok ([0, 0] : List ℚ))).2.1 _ rfl (by norm_num)
+example : rateOf (.ok ([10, 18] : List ℚ)) = .ok 28 := by
+  have := (total_validation (.ok ([10, 18] : List ℚ))).2.2 _ rfl (by norm_num)
+  rw [this]; norm_num
+
+/-- (9, 12) is disjoint from the centres 2 … 8; (1, 4) sticks out below -/
+example (force : Bool) :
+    countrate (env T) 0 (1/10^8) (1/10^5) wObs (some 3) true none (some (9, 12)) force = .error .disjointError :=
+  (countrate_binned_range_errors (env T) 0 _ _ tolA tolR wObs wGood 3 9 12 force 2 8 rfl rfl).1
+    (Or.inr (by norm_num))
+example : countrate (env T) 0 (1/10^8) (1/10^5) wObs (some 3) true none (some (1, 4)) false = .error .partialOverlap :=
+  (countrate_binned_range_errors (env T) 0 _ _ tolA tolR wObs wGood 3 1 4 false 2 8 rfl rfl).2.1
+    (by norm_num) (by norm_num) rfl
+/-- forced: the range is clipped to [2, 4] — again 84 -/
+example : countrate (env T) 0 (1/10^8) (1/10^5) wObs (some 3) true none (some (1, 4)) true = .ok 84 := by
+  rw [(countrate_binned_range_errors (env T) 0 _ _ tolA tolR wObs wGood 3 1 4 true 2 8 rfl rfl).2.2
+    (by norm_num) (by norm_num) rfl]
+  have h1 : max (min (1 : ℚ) 4) 2 = 2 := by norm_num
+  have h2 : min (max (1 : ℚ) 4) 8 = 4 := by norm_num
+  rw [h1, h2]
+  have : (wObs).bins.edges = [1, 3, 6, 10] := rfl
+  rw [this, wRange24, wCounts]
+  norm_num [rateOf]
+
+end examples
 
 end Synphot.C08
